@@ -10,7 +10,7 @@ INFO = {
                    "per-share verifier-length check, the share-count check, decide() on every proof chunk, the "
                    "constant-time joint-randomness seed comparison over whole seeds, the range check over the whole "
                    "input) is present with the stated operands and relation, refuses on every path and dominates "
-                   "every accepting return. The soundness error and the validity-circuit algebra are NOT decided.",
+                   "every accepting return. Shared necessary conditions: a cloned circuit is the same circuit (hand-written Clone impls, R-C02.CL) and the multithreaded gadget computes what the serial one does (R-C14.*), so the rejection logic is the same for those instances. The soundness error and the validity-circuit algebra are NOT decided.",
     "trusted_base": ["rustc type checker and MIR construction (nightly)", "expression reconstruction over MIR (sa/expr.py)"],
     "assumptions": ["refusal = Err return (Ok(false) in decide); field arithmetic is correct (C09, not decided here)"],
 }
